@@ -560,3 +560,61 @@ Proof.
       * unfold send_request in Hin. cbn [rx_left] in Hin. destruct Hin.
     + unfold send_request in Hin. cbn [rx_left] in Hin. destruct l0. cbn in Hin. intuition discriminate.
 Qed.
+
+(* ---- C10: the requests of one assignment, over the whole history of answers ---------------------- *)
+(* `sent`: the blocks asked for so far on this assignment, in order.  Invariant: asked ++ not-yet-asked is the tiling of
+   the piece, and what is outstanding has been asked. *)
+Definition RxI (plen : N) (r : rxs) (sent : list (N * N)) : Prop :=
+  sent ++ rx_left r = left_blocks plen /\ (forall bl, In bl (rx_requested r) -> In bl sent).
+
+Definition blocks_of (i : N) (a : list action) : list (N * N) :=
+  flat_map (fun x => match x with ASend (Request j b l) => if j =? i then [(b, l)] else [] | _ => [] end) a.
+
+Lemma RxI_new cf int i plen r a : new_piece_request cf int i plen = (r, a) -> RxI plen r (blocks_of i a) /\ rx_index r = i.
+Proof.
+  unfold new_piece_request, send_request, new_rx. cbn [rx_left rx_index rx_requested rx_hash rx_buff].
+  destruct (left_blocks plen) as [|[b1 l1] [|[b2 l2] rest]] eqn:EL; cbn [rx_left rx_index rx_requested rx_hash rx_buff app];
+    intros [= <- <-]; unfold RxI; cbn [rx_left rx_requested rx_index]; rewrite EL;
+    destruct int; cbn; rewrite ?N.eqb_refl; cbn; (split; [split; [reflexivity | intuition] | reflexivity]).
+Qed.
+
+(* one answer from the peer while piece (rx_index r) is being assembled *)
+Theorem piece_step sha1 cf s r plen sent i b blk reply :
+  h_rx s = Some r -> RxI plen r sent ->
+  match handle_piece sha1 cf s i b blk reply with
+  | HCont s' a =>
+      (* not an outstanding block of this piece: nothing changes, nothing is asked *)
+      (is_requested r i b blk = false /\ s' = s /\ a = []) \/
+      (* accepted, blocks remain outstanding or unasked: exactly the next unasked block (if any) is asked, and only that *)
+      (is_requested r i b blk = true /\
+       exists r', h_rx s' = Some r' /\ RxI plen r' (sent ++ blocks_of (rx_index r) a) /\ rx_index r' = rx_index r /\
+                  (match rx_left r with [] => a = [] | (b0, l0) :: _ => a = [ASend (Request (rx_index r) b0 l0)] end)) \/
+      (* accepted and it was the last outstanding block with nothing left to ask: the piece completed (and what follows
+         belongs to the next assignment) *)
+      (is_requested r i b blk = true /\ rx_left r = [] /\ sent = left_blocks plen /\ In (ACmd KPieceDone) a)
+  | HEnd _ a _ =>
+      is_requested r i b blk = true /\ rx_left r = [] /\ sent = left_blocks plen
+  | HPanic _ => False
+  end.
+Proof.
+  intros Hrx [HI1 HI2]. unfold handle_piece. rewrite Hrx.
+  destruct (is_requested r i b blk) eqn:Ereq; cbn [negb]; [|left; auto].
+  cbn [rx_left].
+  destruct (rx_left r) as [|[b0 l0] ls] eqn:EL.
+  - rewrite app_nil_r in HI1.
+    destruct (filter (fun bl => negb ((fst bl =? b) && (snd bl =? len blk))) (rx_requested r)) as [|q0 qs] eqn:EF.
+    + cbn [rx_hash rx_index rx_buff rx_requested rx_left].
+      destruct (negb (bytes_eqb _ _)); [auto|].
+      unfold after_piece_finish. destruct reply as [[]|]; try (destruct (new_piece_request cf false i0 len)); cbn;
+        try (right; right; repeat split; auto; cbn; auto; fail); auto.
+    + unfold send_request. cbn [rx_left]. right. left. split; [reflexivity|].
+      eexists. cbn [h_rx set_rx]. split; [reflexivity|]. cbn [blocks_of flat_map]. rewrite app_nil_r.
+      split; [|split; reflexivity]. unfold RxI. cbn [rx_left rx_requested]. split; [rewrite app_nil_r; exact HI1|].
+      intros bl Hbl. apply HI2. rewrite <- EF in Hbl. apply filter_In in Hbl. tauto.
+  - unfold send_request. cbn [rx_left]. right. left. split; [reflexivity|].
+    eexists. cbn [h_rx set_rx]. split; [reflexivity|]. cbn [blocks_of flat_map rx_index]. rewrite N.eqb_refl. cbn [app].
+    split; [|split; reflexivity]. unfold RxI. cbn [rx_left rx_requested]. split.
+    + rewrite <- app_assoc. exact HI1.
+    + intros bl Hbl. apply in_app_or in Hbl. apply in_or_app. destruct Hbl as [Hbl|[<-|[]]]; [|right; left; reflexivity].
+      left. apply HI2. apply filter_In in Hbl. tauto.
+Qed.
